@@ -50,8 +50,28 @@ var reByte = regexp.MustCompile(`(^|[^\w.])byte($|[^\w])`)
 var reRune = regexp.MustCompile(`(^|[^\w.])rune($|[^\w])`)
 
 // typeStr is the canonical name of a type (byte and rune are uint8/int32).
+// deepUnalias removes type aliases also below pointers, slices and arrays (*wuint8 is *bits).
+func deepUnalias(t types.Type) types.Type {
+	t = types.Unalias(t)
+	switch u := t.(type) {
+	case *types.Pointer:
+		if e := deepUnalias(u.Elem()); e != u.Elem() {
+			return types.NewPointer(e)
+		}
+	case *types.Slice:
+		if e := deepUnalias(u.Elem()); e != u.Elem() {
+			return types.NewSlice(e)
+		}
+	case *types.Array:
+		if e := deepUnalias(u.Elem()); e != u.Elem() {
+			return types.NewArray(e, u.Len())
+		}
+	}
+	return t
+}
+
 func typeStr(t types.Type) string {
-	s := types.TypeString(types.Unalias(t), pkgQual)
+	s := types.TypeString(deepUnalias(t), pkgQual)
 	for reByte.MatchString(s) {
 		s = reByte.ReplaceAllString(s, "${1}uint8${2}")
 	}
